@@ -165,6 +165,14 @@ resp0_ctx_send(void *arg, nni_aio *aio)
 		return;
 	}
 
+	if (ctx->saio != NULL) {
+		// We cannot have two concurrent send requests on the same
+		// context: the previous response still waits for its pipe.
+		nni_mtx_unlock(&s->mtx);
+		nni_aio_finish_error(aio, NNG_ESTATE);
+		return;
+	}
+
 	if ((len = ctx->btrace_len) == 0) {
 		nni_mtx_unlock(&s->mtx);
 		nni_aio_finish_error(aio, NNG_ESTATE);
